@@ -32,6 +32,17 @@ def check(repo, rep, tier):
     for name, fn in fns:
         labels |= rg.check_combinator('en', mod, name, fn, rep, R)
     reg = rg.check_dispatch('en', mod, rep, 'R3.6')
+    from .. import rules_unif as ru
+    pur = ru.Purity(repo, rep, 'R3.6')
+    ab = mod.get('apply_binary_rules')
+    mutated = pur.analyse(mod, ab)
+    rep.check(not mutated and not ab.decorator_list, 'R3.6', '%s:%s apply_binary_rules' % (mod.rel, ab.lineno), '%s:apply_binary_rules:no-memo' % mod.rel,
+              'apply_binary_rules keeps no state: each answer is computed from its own arguments', 'apply_binary_rules modifies %s: an answer may come from an earlier call' % sorted(mutated))
+    from . import c06
+    c06.r_scan(repo, rep, 'R3.1')
+    c06.r_scan_deep(repo, rep, 'R3.1')
+    c06.r_feature_loop(repo, rep, 'R3.1')
+    c06.r_feature_relations(repo, rep, 'R3.1')
     rep.floor('registered English combinators', len(reg), 13)
     rep.floor('schema labels produced', len({l for l, _ in labels if l in rg.SCHEMAS['en']}), 6)
     rep.note('labels', sorted(labels))
